@@ -32,6 +32,9 @@ type halfConn struct {
 	rdead    time.Time
 	rtimer   *time.Timer
 
+	limit      int  // >= 0: the connection breaks once this many bytes were delivered
+	limitReset bool
+	limitHit   bool
 	total     int    // bytes ever written
 	wrote     []byte // first recLimit bytes ever written (wire record)
 	delivered int
@@ -186,6 +189,20 @@ func (h *halfConn) deliverable() bool {
 	return h.inflight > 0 || h.wclosed
 }
 
+// remainingBeforeCut: how many more bytes may be delivered before the planned
+// break of this direction (-1: no break planned).
+func (h *halfConn) remainingBeforeCut() int {
+	h.mu.Lock()
+	defer h.mu.Unlock()
+	if h.limit < 0 || h.limitHit {
+		return -1
+	}
+	if r := h.limit - h.delivered; r > 0 {
+		return r
+	}
+	return 0
+}
+
 // deliver moves up to n in-flight bytes (n<0: all) to the reader; when nothing
 // is in flight and the writer has closed, delivers the FIN. Returns a
 // description for the trace.
@@ -319,9 +336,16 @@ type connPair struct {
 func (s *Sim) dial(l *listener, tag string) (net.Conn, error) {
 	s.mu.Lock()
 	id := len(s.conns)
-	c2s := &halfConn{name: fmt.Sprintf("%s%d:c>s", tag, id), sim: s, sendbuf: s.prog.Cfg.SendBuf}
+	c2s := &halfConn{name: fmt.Sprintf("%s%d:c>s", tag, id), sim: s, sendbuf: s.prog.Cfg.SendBuf, limit: -1}
 	c2s.cond = sync.NewCond(&c2s.mu)
-	s2c := &halfConn{name: fmt.Sprintf("%s%d:s>c", tag, id), sim: s, sendbuf: s.prog.Cfg.SendBuf}
+	s2c := &halfConn{name: fmt.Sprintf("%s%d:s>c", tag, id), sim: s, sendbuf: s.prog.Cfg.SendBuf, limit: -1}
+	if wc := s.prog.Cfg.WireCut; wc != nil && tag == "http" && wc.Conn == id {
+		if wc.Dir == "c2s" {
+			c2s.limit, c2s.limitReset = wc.Offset, wc.Reset
+		} else {
+			s2c.limit, s2c.limitReset = wc.Offset, wc.Reset
+		}
+	}
 	s2c.cond = sync.NewCond(&s2c.mu)
 	ca := &net.TCPAddr{IP: net.IPv4(10, 0, 0, 1), Port: 10000 + id}
 	sa := l.addr
